@@ -98,7 +98,7 @@ def pick_points(events, tier, rng, dense):
         fn, func = e[0], e[1]
         key = (fn, func)
         seen_func[key] = seen_func.get(key, 0) + 1
-        anchor = fn in ANCHOR_FILES and func in ('_run', '_run_backend', '_cleanup', '_send_result', 'do_work', '_init_child')
+        anchor = fn in ANCHOR_FILES and func in ('_run', '_run_backend', '_cleanup', '_send_result', 'do_work', '_init_child', 'send_msg')
         if anchor or seen_func[key] <= 1 or (i + off) % stride == 0:
             pts.add(i)
     pts.update([1, total])
@@ -139,6 +139,9 @@ def plans(prop, tier):
         for k in kinds:
             for items in (0, 2):
                 P.append((k, True, 'ret', items, ('term_idle',), None, None))    # an idle persistent worker blocked in its receive, patient caller
+            if k != 'thread':
+                # the same with a child whose control thread needs 0.5 s to raise what it was asked for (caller grants 4 s)
+                P.append((k, True, 'ret', 2, ('term_idle',), None, 'slowraise'))
     elif prop == 'C06':
         for k in kinds:
             for items in ((0, 2) if tier == 'quick' else (0, 1, 2, 3, 5)):
@@ -158,6 +161,8 @@ def plans(prop, tier):
             P.append((k, True, 'ret', 2, ('pause',)))
             P.append((k, False, 'ret', 0, (), None, 'us_none'))        # init_state 5, last value assigned in the child: None
             P.append((k, False, 'ret', 0, (), None, 'us_zero'))        # init_state 7, no assignment in the child at all
+            if k != 'thread':
+                P.append((k, False, 'ret', 0, (), None, 'us_slow'))    # the last state takes 2 s to rebuild in the parent; the caller polls
             if k != 'thread':
                 P.append((k, False, 'linger', 0, (), None, None))      # reported, but the child process lingers
                 P.append((k, False, 'linger', 0, (), None, 'linger_term'))     # ... and is then force-terminated by an impatient caller
@@ -215,7 +220,7 @@ def run(prop, tier, replay=None):
         for bc in base_cases:
             if bc['observe'] == 'slowfin':
                 bc['observe'] = None
-            if bc['observe'] in ('double', 'midmsg'):
+            if bc['observe'] in ('double', 'midmsg', 'slowraise'):
                 bc['observe'] = None
             if bc['observe'] == 'slowarg':
                 bc.update(observe=None, slowarg=True)
@@ -225,6 +230,8 @@ def run(prop, tier, replay=None):
                 bc.update(observe=None, restart_chain=2)
             if bc['observe'] == 'us_none':
                 bc.update(observe=None, us_none=True, init_state=5)
+            if bc['observe'] == 'us_slow':
+                bc.update(observe='poll', us_slow=True)
             if bc['observe'] == 'us_zero':
                 bc.update(observe=None, us_zero=True, init_state=7)
             if bc['observe'] == 'ctx':
@@ -245,7 +252,8 @@ def run(prop, tier, replay=None):
                 if f in ('sigkill', 'sigterm') and tier == 'quick':
                     pts = pts[::3]
                 if cons and tier == 'quick':
-                    pts = pts[::2]
+                    keep = [i for i in pts if events[i - 1][1] == 'send_msg']        # between two writes of one message
+                    pts = sorted(set(pts[::2]) | set(keep))
                 extra = {}
                 if f in ('term_after_finish', 'term_idle'):
                     pts = [0]
@@ -265,6 +273,8 @@ def run(prop, tier, replay=None):
                         raise MachineryError('the 32 MB result was not read in pieces (%d line events in _recv_exact): no mid-message point' % len(longest))
                     pts = [longest[len(longest) * q // 8] for q in (1, 2, 3, 4, 5, 6, 7)]
                     extra = {'fpause_wait': 12}
+                if obsmode == 'slowraise':
+                    extra = {'raise_delay': 0.5, 'idle_timeout': 4}
                 if obsmode == 'ctx':
                     extra = {'in_context': True, 'init_state': 40}
                 if obsmode == 'double':
